@@ -132,6 +132,11 @@ impl Writer {
         let build = &graph.builds[id];
         let mut w = RecordWriter::default();
         let outs = build.outs();
+        if outs.len() >= 0b1000_0000_0000_0000 || build.discovered_ins().len() > u16::MAX as usize {
+            // The counts do not fit the record format; writing them truncated would
+            // corrupt the log.  Without a record the build is simply considered dirty.
+            return Ok(());
+        }
         let mark = (outs.len() as u16) | 0b1000_0000_0000_0000;
         w.write_u16(mark);
         for &out in outs {
